@@ -11,6 +11,7 @@ R5 views: ViewOnlyDict exposes no mutator; no handle method returns its interfac
 R6 cache on add: every handle method that creates a child interface under itself records it in its cache
 R7 loop index discipline for derived ids
 R8 connect_interface creates the service port and the link as a unit
+R11 every catalogue component type with interfaces gets typed interfaces (dispatch of generate_component, shared with C18)
 R10 set_type of each sliver class checks the value against the enumeration of that kind (NodeType, ComponentType ...)
 R9 a new Link type-checks the elements of `interfaces` (Interface objects only) before anything is inserted
 """
@@ -201,6 +202,16 @@ def run(prog, rep):
                 for d in walk_no_nested(fn):
                     if isinstance(d, ast.Assign) and any(isinstance(x, ast.Name) and x.id == rhs.id for x in d.targets) and scope in ast.unparse(d.value):
                         ok_scope = True
+                        # the names compared must be those of the whole scope: a listing filtered by a condition leaves names out
+                        if any(isinstance(x, ast.comprehension) and x.ifs for x in ast.walk(d.value)) or \
+                                any(isinstance(x, ast.Call) and isinstance(x.func, ast.Name) and x.func.id == 'filter' for x in ast.walk(d.value)):
+                            ok_scope = False
+                from ..normalize import builders as _b
+                for b_ in _b(fn).get(rhs.id, []):
+                    if b_.conds and any(scope in ast.unparse(i) for _, i in b_.gens):
+                        ok_scope = False
+            if ok_scope and any(isinstance(x, ast.comprehension) and x.ifs for x in ast.walk(rhs)):
+                ok_scope = False
             if ok_scope and ast.unparse(t.ast.left) == 'name':
                 good.append(t)
         rep.instance('R4', f'{fq}: uniqueness test {[norm(t.ast, 70) for t in good]} before creation')
@@ -443,6 +454,20 @@ def run(prog, rep):
             rep.violation('R10', loc(owner.module, st), f'{sc.name}.set_type', f'type of a {sc.name} is not checked against {enum_name}',
                           f'{sc.name}.set_type stores whatever it is given (found vocabulary: {vocab}): element.set_property(\'type\', ...) can put a '
                           f'value outside {enum_name} into the model, which the published model rules do not allow')
+
+    # ---- R11: interfaces generated for catalogue components carry a type ----
+    rep.rule('R11', 'every catalogue component type that has interfaces gets typed interfaces', floor=3)
+    from . import c18
+    comps_ = prog.data_file(c18.COMPS)
+    with_ifs = sorted({c_.get('Type') for c_ in comps_ if isinstance(c_, dict) and c_.get('Interfaces')})
+    disp_ = c18.interface_kind_dispatch(prog)
+    ccat_ = prog.cls(c18.CCAT)
+    for t_ in with_ifs:
+        rep.instance('R11', f'catalogue type {t_}: generated interfaces are {disp_.get(t_)}')
+        if not disp_.get(t_) or disp_.get(t_) == '?':
+            rep.violation('R11', loc(ccat_.module, ccat_.methods['generate_component']), 'ComponentCatalog.generate_component', f'no interface type for component type {t_}',
+                          f'the interfaces generated for {t_} components are stored without a Type: the model contains ConnectionPoints '
+                          f'that the published rules (every element has a type from the allowed vocabulary) reject')
 
     # ---- R8 ----
     ci = ns.methods.get('connect_interface')
